@@ -52,7 +52,9 @@ def inst_plain(variant=0):
   x = L.Dense(4, name="d_b")(x)
   x = L.Dense(4, activation="sigmoid", name="s_gate")(x)          # an inline activation other than relu / softmax / linear
   x = L.Dense(2, activation="softmax", name="d_out")(x)
-  limit = {"Conv1D": [8, 4, 3], "SimpleRNN": [2], "GRU": [4, 4, 4, 3], "^d_[ab]$": [4, 4, 8], "^s_gate$": [4, 8, 3],
+  # "gate" is an un-anchored pattern: patterns are matched at the START of a layer name (re.match), so it governs no
+  # layer here although it occurs inside "s_gate"
+  limit = {"gate": [8, 8, 8], "Conv1D": [8, 4, 3], "SimpleRNN": [2], "GRU": [4, 4, 4, 3], "^d_[ab]$": [4, 4, 8], "^s_gate$": [4, 8, 3],
            "Activation": [4], "default": 4}
   # a scalar default cannot complete a sequence-layer list (the code asserts a 4-entry default): give the full list there
   limit["SimpleRNN"] = [2, 8, 4, 3]
